@@ -64,6 +64,10 @@ CHECKS = {
     technique='TLA+ SrvDisconnectThreads.tla (one pc per thread, labels = manager / transport / handler / environ accesses) model-checked by TLC + exhaustive schedule exploration of the real threaded Server under the baton scheduler, each step re-executed by TLC',
     text='2-3 real threads run {Server.disconnect(), client DISCONNECT, transport loss, disconnect of the other namespace} on one client; the instance\'s manager methods, eio.send, the disconnect handler and the environ table park the thread before each access; every schedule is explored by abstract state and validated step by step against the spec (membership, pending list, handler runs, packets, thread-local values, results). Invariants: handler exactly once, no thread raises, clean afterwards. The check-then-mark window of the code is the named deviation D7 (known finding); the design with an atomic gate satisfies all invariants (model-checked).',
     ref='4/C20', note='Trusted: TLC, the baton scheduler (pre-emption at the accesses the property names, not per bytecode), real engine.io sockets.'),
+ 'C14': dict(
+    technique='two adapters, one TLA+ specification: the threaded and the asyncio class are each explored exhaustively and validated edge by edge by TLC against the SAME module (SioServer.tla, SioClient.tla) with equal state counts; plus a direct comparison of the two implementation graphs',
+    text='For every configuration the real Server and AsyncServer (Client and AsyncClient) are driven through every alphabet action (client frames valid and malformed, API calls, transport losses) from every reachable abstract state, background handlers joined; both graphs must be the specification\'s graph (G2+G3), and the two recorded graphs (states, packets per peer, handler and callback invocations, results/exceptions, after renaming session ids by order of appearance) must be identical to each other. Managers are covered through the servers, namespaces through C13/C17 cases on all four classes; SimpleClient/AsyncSimpleClient and the pub/sub managers are covered where their own checks (C19, C07) run both classes.',
+    ref='4/C14', note=SRV_NOTE + ' AsyncSimpleClient and AsyncPubSubManager pairs are not part of this check yet.'),
  'C16': dict(
     technique='TLA+ SioServer.tla (sessions config) + exhaustive graph validation with the real engine.io session store',
     text='C16_SessionIsolation: get_session/session() return the declared contents for that client+namespace, never a foreign value; known finding D6 (session survives a namespace-level disconnect) is modelled exactly, the design without it is model-checked.',
